@@ -1,18 +1,25 @@
-"""Per-property registration (harness name, assumptions, what is modelled)."""
-from vlib import Check
+"""Collects the per-property registrations from lib/props/*.py."""
+import importlib
+import os
+import pkgutil
+
+from vlib import Check  # noqa: F401  (re-exported for props modules)
 
 CHECKS = {}
+MANIFEST = {}
 
 
-def reg(c):
-    CHECKS[c.pid] = c
+def reg(check, level_text=None, level_note=None, technique=None, design_ref=None):
+    CHECKS[check.pid] = check
+    MANIFEST[check.pid] = dict(level_text=level_text or "", level_note=level_note or "",
+                               technique=technique or "Coq proof over hand-written model + differential correspondence check",
+                               design_ref=design_ref or ("DESIGN.md section 6, " + check.pid))
 
 
-reg(Check(
-    "C09", "c09",
-    assumptions=[
-        "values stored in the tree are non-nil (a nil-valued leaf is indistinguishable from an empty node in ctree)",
-        "single goroutine (C10 covers concurrency)",
-    ],
-    modelled=["ctree/tree.go: Add, Get, GetLeaf, GetLeafValue, Query, Walk, WalkSorted, Delete, DeleteConditional, WalkDeleted, Children, IsBranch (String() not modelled)"],
-))
+def _load():
+    import props
+    for m in sorted(pkgutil.iter_modules(props.__path__), key=lambda x: x.name):
+        importlib.import_module("props." + m.name)
+
+
+_load()
